@@ -198,14 +198,17 @@ def ty_as_smtlib(ex, t, funstyle=True):
 
 
 class PrinterVariant(Variant):
-    prop_ids = ("C07",)
+    # C09: the text a callback writes is what the parser reads back - a callback that writes another index, spelling or child
+    # order than the node's own breaks "parses back to the very same object" (per-operator lemma of contracts/c09_roundtrip.py
+    # is stated over exactly this table row).  `C20:`-prefixed clauses are dropped for C07 / C09 by the harness.
+    prop_ids = ("C07", "C09")
 
     def __init__(self, world, cls, Kop, k, target):
         self.world, self.cls, self.Kop, self.k = world, cls, Kop, k
         self.qualname = target
         self.dag = cls == DAG
         if self.dag:
-            self.prop_ids = ("C07", "C20")
+            self.prop_ids = ("C07", "C09", "C20")
         self.name = "%s:%s[%s/%s]" % ("dag" if self.dag else "tree", target.rsplit(".", 1)[1], S.OPNAMES[Kop], k)
         if Kop in NARY or Kop in S.QUANT_OPS:
             self.bounded = "arity"
